@@ -168,4 +168,1146 @@ theorem phaseUR_seg (s : St) (t : Tick) :
     | sslWantRead => exact ⟨[], by simp [Conn.recv, D]⟩
   · exact ⟨[], by simp [D]⟩
 
+/-! ### one tick, downstream accounting -/
+
+/-- what one tick does to the downstream accounting: `seg` is what was read from
+    the upstream in it (possibly nothing) -/
+structure DownStep (s s' : St) (seg : Bytes) (t : Tick) : Prop where
+  kind : s'.kind = s.kind
+  maxSend : s'.maxSend = s.maxSend
+  closed : s'.upstream.closed = s.upstream.closed
+  recvU : s'.recvU = s.recvU ++ seg
+  d : D s' = D s ++ seg
+  qf : s'.queuedC.flatten = s.queuedC.flatten ++ seg
+  q : s'.queuedC = s.queuedC ∨ (t.uRecv = .data seg ∧ seg ≠ [] ∧ s'.queuedC = s.queuedC ++ [seg])
+
+theorem finish_fst (s : St) : (finish s).1 = s := rfl
+
+theorem readHalf_down (s : St) (t : Tick) (hk : s.kind ≠ .local) :
+    ∃ seg, DownStep s (readHalf s t).1 seg t := by
+  unfold readHalf
+  split
+  · exact ⟨[], by constructor <;> simp [finish_fst]⟩
+  · have fc := phaseCR_frame s t hk
+    rcases hcr : phaseCR s t with ⟨s1, r⟩
+    rw [hcr] at fc
+    simp only at fc
+    obtain ⟨c1, c2, c3, c4, c5, c6, c7, c8⟩ := fc
+    cases r with
+    | raised => exact ⟨[], by constructor <;> simp [D, *]⟩
+    | yes => exact ⟨[], by constructor <;> simp [finish_fst, D, *]⟩
+    | no =>
+      simp only
+      have fu := phaseUR_frame s1 t
+      obtain ⟨seg, u1, u2, u3, u4⟩ := phaseUR_seg s1 t
+      rcases hur : phaseUR s1 t with ⟨s2, r2⟩
+      rw [hur] at fu u1 u2 u3 u4
+      simp only at fu u1 u2 u3 u4
+      obtain ⟨f1, f2, f3, f4, f5, f6, f7⟩ := fu
+      refine ⟨seg, ?_⟩
+      have hD : D s1 = D s := by simp [D, *]
+      constructor <;> simp only [finish_fst]
+      · simp [*]
+      · simp [*]
+      · simp [*]
+      · simp [*]
+      · simp only [D] at u2 hD ⊢; simp [u2, hD]
+      · simp [*]
+      · rcases u4 with ⟨h, _⟩ | ⟨h1, h2, h3, _⟩
+        · left; simp [*]
+        · right; exact ⟨h1, h2, by simp [*]⟩
+
+theorem tick_down (s : St) (t : Tick) (hk : s.kind ≠ .local) :
+    ∃ seg, DownStep s (tick s t).1 seg t := by
+  unfold tick
+  simp only
+  have fw := phaseCW_frame { s with trC := none, trU := none } t
+  rcases hcw : phaseCW { s with trC := none, trU := none } t with ⟨s1, w⟩
+  rw [hcw] at fw
+  simp only at fw
+  obtain ⟨a1, a2, a3, a4, a5, a6, a7, a8, a9⟩ := fw
+  have hD1 : D s1 = D s := by simpa [D] using a9
+  cases w with
+  | true => exact ⟨[], by constructor <;> simp [D, *] <;> simpa [D] using hD1⟩
+  | false =>
+    simp only
+    have fu := phaseUW_frame { s1 with writesTeared := false } t
+    rcases huw : phaseUW { s1 with writesTeared := false } t with ⟨s2, w2⟩
+    rw [huw] at fu
+    simp only at fu
+    obtain ⟨b1, b2, b3, b4, b5, b6, b7, b8, b9, b10, b11⟩ := fu
+    have hk2 : ({ s2 with writesTeared := w2, readsTeared := s2.readsTeared || w2 } : St).kind ≠ .local := by
+      simp [*]
+    obtain ⟨seg, hs⟩ := readHalf_down { s2 with writesTeared := w2, readsTeared := s2.readsTeared || w2 } t hk2
+    refine ⟨seg, ?_⟩
+    have hD2 : D s2 = D s := by
+      have : D s2 = D s1 := by simp [D, *]
+      rw [this, hD1]
+    constructor
+    · rw [hs.kind]; simp [*]
+    · rw [hs.maxSend]; simp [*]
+    · rw [hs.closed]; simp [*]
+    · rw [hs.recvU]; simp [*]
+    · rw [hs.d]; show D s2 ++ seg = D s ++ seg; rw [hD2]
+    · rw [hs.qf]; simp [*]
+    · rcases hs.q with h | ⟨h1, h2, h3⟩
+      · left; rw [h]; simp [*]
+      · right; exact ⟨h1, h2, by rw [h3]; simp [*]⟩
+
+theorem mask_uRecv (i : Interest) (t : Tick) : (mask i t).uRecv = t.uRecv := rfl
+theorem mask_cRecv (i : Interest) (t : Tick) : (mask i t).cRecv = t.cRecv := rfl
+
+theorem step_down (s : St) (t : Tick) (hk : s.kind ≠ .local) :
+    ∃ seg, DownStep s (step s t).1 seg t := by
+  obtain ⟨seg, h⟩ := tick_down s (mask (events s) t) hk
+  exact ⟨seg, ⟨h.kind, h.maxSend, h.closed, h.recvU, h.d, h.qf, h.q⟩⟩
+
+/-! ### one tick, upstream accounting (tunnel) -/
+
+structure UpStep (s s' : St) (seg : Bytes) : Prop where
+  kind : s'.kind = s.kind
+  closed : s'.upstream.closed = s.upstream.closed
+  recvC : s'.recvC = s.recvC ++ seg
+  u : U s' = U s ++ seg
+
+theorem finish_snd_ne_raised (s : St) : (finish s).2 ≠ .raised := by
+  unfold finish; split <;> simp
+
+theorem readHalf_up (s : St) (t : Tick) (hk : s.kind = .tunnel) (hc : s.upstream.closed = false) :
+    (∃ seg, UpStep s (readHalf s t).1 seg) ∧ (readHalf s t).2 ≠ .raised := by
+  have hkl : s.kind ≠ .local := by simp [hk]
+  unfold readHalf
+  split
+  · exact ⟨⟨[], by constructor <;> simp [finish_fst]⟩, finish_snd_ne_raised _⟩
+  · have fc := phaseCR_frame s t hkl
+    obtain ⟨seg, t1, t2, t3⟩ := phaseCR_tunnel s t hk hc
+    rcases hcr : phaseCR s t with ⟨s1, r⟩
+    rw [hcr] at fc t1 t2 t3
+    simp only at fc t1 t2 t3
+    obtain ⟨c1, c2, c3, c4, c5, c6, c7, c8⟩ := fc
+    cases r with
+    | raised => exact absurd rfl t3
+    | yes =>
+      simp only
+      refine ⟨⟨seg, ?_⟩, finish_snd_ne_raised _⟩
+      constructor <;> simp only [finish_fst]
+      · simp [*]
+      · simp [*]
+      · simp [*]
+      · show U s1 = U s ++ seg
+        exact t2
+    | no =>
+      simp only
+      have fu := phaseUR_frame s1 t
+      rcases hur : phaseUR s1 t with ⟨s2, r2⟩
+      rw [hur] at fu
+      simp only at fu
+      obtain ⟨f1, f2, f3, f4, f5, f6, f7⟩ := fu
+      refine ⟨⟨seg, ?_⟩, finish_snd_ne_raised _⟩
+      constructor <;> simp only [finish_fst]
+      · simp [*]
+      · simp [*]
+      · simp [*]
+      · have : U s2 = U s1 := by simp [U, *]
+        show U s2 = U s ++ seg
+        rw [this, t2]
+
+theorem tick_up (s : St) (t : Tick) (hk : s.kind = .tunnel) (hc : s.upstream.closed = false) :
+    (∃ seg, UpStep s (tick s t).1 seg) ∧ (tick s t).2 ≠ .raised := by
+  unfold tick
+  simp only
+  have fw := phaseCW_frame { s with trC := none, trU := none } t
+  rcases hcw : phaseCW { s with trC := none, trU := none } t with ⟨s1, w⟩
+  rw [hcw] at fw
+  simp only at fw
+  obtain ⟨a1, a2, a3, a4, a5, a6, a7, a8, a9⟩ := fw
+  have hU1 : U s1 = U s := by simp [U, *]
+  cases w with
+  | true => exact ⟨⟨[], by constructor <;> simp [*] <;> simpa [U] using hU1⟩, by simp⟩
+  | false =>
+    simp only
+    have fu := phaseUW_frame { s1 with writesTeared := false } t
+    rcases huw : phaseUW { s1 with writesTeared := false } t with ⟨s2, w2⟩
+    rw [huw] at fu
+    simp only at fu
+    obtain ⟨b1, b2, b3, b4, b5, b6, b7, b8, b9, b10, b11⟩ := fu
+    have hk2 : ({ s2 with writesTeared := w2, readsTeared := s2.readsTeared || w2 } : St).kind = .tunnel := by
+      simp [*]
+    have hc2 : ({ s2 with writesTeared := w2, readsTeared := s2.readsTeared || w2 } : St).upstream.closed = false := by
+      simp [*]
+    obtain ⟨⟨seg, hs⟩, hr⟩ := readHalf_up { s2 with writesTeared := w2, readsTeared := s2.readsTeared || w2 } t hk2 hc2
+    refine ⟨⟨seg, ?_⟩, hr⟩
+    have hU2 : U s2 = U s := by
+      have : U s2 = U s1 := by simpa [U] using b11
+      rw [this, hU1]
+    constructor
+    · rw [hs.kind]; simp [*]
+    · rw [hs.closed]; simp [*]
+    · rw [hs.recvC]; simp [*]
+    · rw [hs.u]; show U s2 ++ seg = U s ++ seg; rw [hU2]
+
+/-! ### runs -/
+
+theorem run_cons (s : St) (t : Tick) (ts : List Tick) :
+    run s (t :: ts) = (if (step s t).2 = .cont then run (step s t).1 ts else step s t) := by
+  rw [run]
+  rcases h : step s t with ⟨s1, r⟩
+  cases r <;> simp
+
+/-- downstream accounting over a whole run: `segs` are the non-empty segments
+    read from the upstream, in order -/
+theorem run_down (ticks : List Tick) (s : St) (hk : s.kind ≠ .local) :
+    ∃ segs : List Bytes,
+      (run s ticks).1.kind = s.kind ∧ (run s ticks).1.maxSend = s.maxSend ∧
+      (run s ticks).1.recvU = s.recvU ++ segs.flatten ∧
+      D (run s ticks).1 = D s ++ segs.flatten ∧
+      (run s ticks).1.queuedC = s.queuedC ++ segs ∧
+      ∀ b ∈ segs, b ≠ [] ∧ ∃ t ∈ ticks, t.uRecv = .data b := by
+  induction ticks generalizing s with
+  | nil => exact ⟨[], by simp [run]⟩
+  | cons t ts ih =>
+    obtain ⟨seg, h⟩ := step_down s t hk
+    -- the segments queued by this step
+    have hq : ∃ sg : List Bytes, (step s t).1.queuedC = s.queuedC ++ sg ∧ sg.flatten = seg ∧
+        ∀ b ∈ sg, b ≠ [] ∧ t.uRecv = .data b := by
+      rcases h.q with hq | ⟨h1, h2, h3⟩
+      · refine ⟨[], by simp [hq], ?_, by simp⟩
+        have := h.qf; rw [hq] at this
+        simpa using (List.append_right_eq_self.mp this.symm).symm
+      · exact ⟨[seg], h3, by simp, by simp [h1, h2]⟩
+    obtain ⟨sg, q1, q2, q3⟩ := hq
+    rw [run_cons]
+    split
+    · have hk' : (step s t).1.kind ≠ .local := by rw [h.kind]; exact hk
+      obtain ⟨segs, i1, i2, i3, i4, i5, i6⟩ := ih (step s t).1 hk'
+      refine ⟨sg ++ segs, ?_, ?_, ?_, ?_, ?_, ?_⟩
+      · rw [i1, h.kind]
+      · rw [i2, h.maxSend]
+      · rw [i3, h.recvU, ← q2]; simp
+      · rw [i4, h.d, ← q2]; simp
+      · rw [i5, q1]; simp
+      · intro b hb
+        rcases List.mem_append.mp hb with hb | hb
+        · exact ⟨(q3 b hb).1, t, by simp, (q3 b hb).2⟩
+        · obtain ⟨n1, t', ht', e⟩ := i6 b hb
+          exact ⟨n1, t', by simp [ht'], e⟩
+    · refine ⟨sg, h.kind, h.maxSend, by rw [h.recvU, q2], by rw [h.d, q2], q1, ?_⟩
+      intro b hb
+      exact ⟨(q3 b hb).1, t, by simp, (q3 b hb).2⟩
+
+/-- upstream accounting over a whole run of a tunnel -/
+theorem run_up (ticks : List Tick) (s : St) (hk : s.kind = .tunnel) (hc : s.upstream.closed = false) :
+    (∃ segs : Bytes, (run s ticks).1.recvC = s.recvC ++ segs ∧ U (run s ticks).1 = U s ++ segs) ∧
+    (run s ticks).2 ≠ .raised := by
+  induction ticks generalizing s with
+  | nil => exact ⟨⟨[], by simp [run]⟩, by simp [run]⟩
+  | cons t ts ih =>
+    obtain ⟨⟨seg, h⟩, hr⟩ := tick_up s (mask (events s) t) hk hc
+    rw [run_cons]
+    split
+    · obtain ⟨⟨segs, i1, i2⟩, i3⟩ := ih (step s t).1 (by rw [step, h.kind]; exact hk) (by rw [step, h.closed]; exact hc)
+      refine ⟨⟨seg ++ segs, ?_, ?_⟩, i3⟩
+      · rw [i1]; show (tick s (mask (events s) t)).1.recvC ++ segs = _; rw [h.recvC]; simp
+      · rw [i2]; show U (tick s (mask (events s) t)).1 ++ segs = _; rw [h.u]; simp
+    · exact ⟨⟨seg, h.recvC, h.u⟩, hr⟩
+
+/-! ### C07: teardown, final flush -/
+
+/-- a client-side send failure happened in the tick: the client was reported
+    writable with output pending and its `send` raised -/
+def ClientSendFailed (s : St) (t : Tick) : Prop :=
+  t.cW = true ∧ s.client.hasBuffer = true ∧
+    (t.cSend = .brokenPipe ∨ t.cSend = .osError ∨ t.cSend = .sslWantWrite)
+
+instance (s : St) (t : Tick) : Decidable (ClientSendFailed s t) := by
+  unfold ClientSendFailed; infer_instance
+
+theorem finish_teardown (s : St) (h : (finish s).2 = .teardown) : s.client.hasBuffer = false := by
+  unfold finish at h
+  split at h
+  · rename_i hc; simp at hc; exact hc.2
+  · simp at h
+
+theorem finish_cont (s : St) (h : (finish s).2 = .cont) : ¬ (s.readsTeared = true ∧ s.client.hasBuffer = false) := by
+  unfold finish at h
+  split at h
+  · simp at h
+  · rename_i hc; simpa using hc
+
+theorem readHalf_teardown (s : St) (t : Tick) (h : (readHalf s t).2 = .teardown) :
+    (readHalf s t).1.client.hasBuffer = false := by
+  unfold readHalf at h ⊢
+  split
+  · rename_i hr; rw [if_pos hr] at h; exact finish_teardown _ h
+  · rename_i hr; rw [if_neg hr] at h
+    rcases hcr : phaseCR s t with ⟨s1, r⟩
+    rw [hcr] at h
+    cases r with
+    | raised => simp at h
+    | yes => simp only at h ⊢; exact finish_teardown _ h
+    | no =>
+      simp only at h ⊢
+      exact finish_teardown _ h
+
+/-- `afterCW` returns `True` only after a send exception or with the buffer drained -/
+theorem afterCW_true (s : St) (r : FlushRes) (h : (afterCW s r).2 = true) :
+    r.exc ≠ none ∨ ((afterCW s r).1.client.hasBuffer = false ∧ s.mustFlush = true) := by
+  obtain ⟨conn, off, acc, exc⟩ := r
+  unfold afterCW at h ⊢
+  cases exc with
+  | some e => left; simp
+  | none =>
+    right
+    simp only at h ⊢
+    split at h
+    · rename_i hc; simp at hc; rw [if_pos (by simpa using hc)]; simpa using hc.symm
+    · simp at h
+
+theorem afterCW_false (s : St) (r : FlushRes) (h : (afterCW s r).2 = false) :
+    r.exc = none ∧ (s.mustFlush = true → (afterCW s r).1.client.hasBuffer = true) ∧
+    (afterCW s r).1.mustFlush = s.mustFlush ∧ (afterCW s r).1.client = r.conn ∧
+    (afterCW s r).1.sentC = s.sentC ++ r.wire := by
+  obtain ⟨conn, off, acc, exc⟩ := r
+  unfold afterCW at h ⊢
+  cases exc with
+  | some e => simp at h
+  | none =>
+    simp only at h ⊢
+    split at h
+    · simp at h
+    · rename_i hc
+      rw [if_neg hc]
+      simp at hc ⊢
+      intro hm
+      cases hb : conn.hasBuffer with
+      | true => rfl
+      | false => exact absurd (hc hm) (by simp [hb])
+
+/-- **no early close, one tick.** -/
+theorem tick_no_early_close (s : St) (t : Tick) (h : (tick s t).2 = .teardown)
+    (hb : (tick s t).1.client.hasBuffer = true) : ClientSendFailed s t := by
+  unfold tick at h hb
+  simp only at h hb
+  rcases hcw : phaseCW { s with trC := none, trU := none } t with ⟨s1, w⟩
+  rw [hcw] at h hb
+  cases w with
+  | true =>
+    simp only at h hb
+    unfold phaseCW at hcw
+    split at hcw
+    · rename_i hc
+      simp at hc
+      have h2 : (afterCW { s with trC := none, trU := none } (flush s.maxSend s.client t.cSend)).2 = true := by
+        simp at hcw; rw [hcw]
+      have h1 : (afterCW { s with trC := none, trU := none } (flush s.maxSend s.client t.cSend)).1 = s1 := by
+        simp at hcw; rw [hcw]
+      rcases afterCW_true _ _ h2 with he | ⟨he, _⟩
+      · have := (flush_exc_iff s.maxSend s.client t.cSend).mp he
+        exact ⟨hc.1, hc.2, this.2⟩
+      · rw [h1] at he; rw [he] at hb; simp at hb
+    · simp at hcw
+  | false =>
+    simp only at h hb
+    rcases huw : phaseUW { s1 with writesTeared := false } t with ⟨s2, w2⟩
+    rw [huw] at h hb
+    simp only at h hb
+    have := readHalf_teardown _ _ h
+    rw [this] at hb; simp at hb
+
+theorem step_no_early_close (s : St) (t : Tick) (h : (step s t).2 = .teardown)
+    (hb : (step s t).1.client.hasBuffer = true) : ClientSendFailed s t := by
+  have := tick_no_early_close s (mask (events s) t) h hb
+  obtain ⟨h1, h2, h3⟩ := this
+  refine ⟨?_, h2, h3⟩
+  simp [mask] at h1; exact h1.1
+
+/-- a run that ends in teardown with client output pending: its last executed
+    tick had a client-side send failure -/
+theorem run_no_early_close (ticks : List Tick) (s : St) (h : (run s ticks).2 = .teardown)
+    (hb : (run s ticks).1.client.hasBuffer = true) :
+    ∃ s0 t, t ∈ ticks ∧ ClientSendFailed s0 t ∧ step s0 t = run s ticks := by
+  induction ticks generalizing s with
+  | nil => simp [run] at h
+  | cons t ts ih =>
+    rw [run_cons] at h hb ⊢
+    split at h
+    · rename_i hc
+      rw [if_pos hc] at hb ⊢
+      obtain ⟨s0, t0, m, f, e⟩ := ih _ h hb
+      exact ⟨s0, t0, by simp [m], f, e⟩
+    · rename_i hc
+      rw [if_neg hc] at hb ⊢
+      exact ⟨s, t, by simp, step_no_early_close s t h hb, rfl⟩
+
+/-! #### exceptions -/
+
+theorem readHalf_raised (s : St) (t : Tick) (h : (readHalf s t).2 = .raised) :
+    s.kind ≠ .tunnel ∧ t.app = .raised ∧ t.cR = true ∧ s.readsTeared = false := by
+  unfold readHalf at h
+  split at h
+  · exact absurd h (finish_snd_ne_raised _)
+  · rename_i hrt
+    rcases hcr : phaseCR s t with ⟨s1, r⟩
+    rw [hcr] at h
+    cases r with
+    | yes => exact absurd h (finish_snd_ne_raised _)
+    | no => exact absurd h (finish_snd_ne_raised _)
+    | raised =>
+      unfold phaseCR at hcr
+      split at hcr
+      · rename_i hcR
+        cases hr : Conn.recv t.cRecv with
+        | none_ => rw [hr] at hcr; simp at hcr
+        | exc o => rw [hr] at hcr; cases o <;> simp at hcr
+        | seg b =>
+          rw [hr] at hcr
+          simp only at hcr
+          have h2 : (onClientData { s with recvC := s.recvC ++ b } b t.app).2 = .raised := by
+            generalize onClientData { s with recvC := s.recvC ++ b } b t.app = x at hcr
+            obtain ⟨x1, x2⟩ := x
+            unfold afterHD at hcr
+            cases x2 with
+            | raised => rfl
+            | ret c => cases c <;> simp at hcr <;> split at hcr <;> simp at hcr
+          unfold onClientData at h2
+          cases hk : s.kind with
+          | tunnel => simp [hk] at h2; split at h2 <;> simp at h2
+          | http =>
+            simp [hk] at h2
+            split at h2
+            · simp at h2
+            · cases ha : t.app with
+              | raised => exact ⟨by simp, rfl, hcR, by simpa using hrt⟩
+              | ok a b c => rw [ha] at h2; simp at h2
+          | «local» =>
+            simp [hk] at h2
+            cases ha : t.app with
+            | raised => exact ⟨by simp, rfl, hcR, by simpa using hrt⟩
+            | ok a b c => rw [ha] at h2; simp at h2
+      · simp at hcr
+
+theorem tick_raised (s : St) (t : Tick) (h : (tick s t).2 = .raised) :
+    s.kind ≠ .tunnel ∧ t.app = .raised ∧ t.cR = true := by
+  unfold tick at h
+  simp only at h
+  have fw := phaseCW_frame { s with trC := none, trU := none } t
+  rcases hcw : phaseCW { s with trC := none, trU := none } t with ⟨s1, w⟩
+  rw [hcw] at h fw
+  cases w with
+  | true => simp at h
+  | false =>
+    simp only at h fw
+    have fu := phaseUW_frame { s1 with writesTeared := false } t
+    rcases huw : phaseUW { s1 with writesTeared := false } t with ⟨s2, w2⟩
+    rw [huw] at h fu
+    simp only at h fu
+    obtain ⟨r1, r2, r3, _⟩ := readHalf_raised _ _ h
+    refine ⟨?_, r2, r3⟩
+    simpa [fu.1, fw.1] using r1
+
+/-! #### the client buffer after the write phases only grows -/
+
+theorem onClientData_client (s : St) (b : Bytes) (a : AppOut) :
+    ∃ extra, (onClientData s b a).1.client.buffer = s.client.buffer ++ extra := by
+  unfold onClientData
+  cases s.kind with
+  | tunnel => simp only; split <;> exact ⟨[], by simp⟩
+  | http =>
+    simp only
+    split
+    · exact ⟨[], by simp⟩
+    · cases a with
+      | raised => exact ⟨[], by simp⟩
+      | ok u c cl => cases u <;> exact ⟨[], by simp⟩
+  | «local» =>
+    cases a with
+    | raised => exact ⟨[], by simp⟩
+    | ok u c cl =>
+      cases c with
+      | none => exact ⟨[], by simp⟩
+      | some x => exact ⟨[x], by simp [Conn.queue]⟩
+
+theorem afterHD_client (s : St) (hd : HD) : (afterHD s hd).1.client = s.client := by
+  rcases afterHD_state s hd with h | h <;> rw [h]
+
+theorem phaseCR_client (s : St) (t : Tick) :
+    ∃ extra, (phaseCR s t).1.client.buffer = s.client.buffer ++ extra := by
+  unfold phaseCR
+  split
+  · cases hr : Conn.recv t.cRecv with
+    | none_ => exact ⟨[], by simp⟩
+    | exc o => cases o <;> exact ⟨[], by simp⟩
+    | seg b =>
+      simp only
+      obtain ⟨e, he⟩ := onClientData_client { s with recvC := s.recvC ++ b } b t.app
+      exact ⟨e, by rw [afterHD_client, he]⟩
+  · exact ⟨[], by simp⟩
+
+theorem phaseUR_client (s : St) (t : Tick) :
+    ∃ extra, (phaseUR s t).1.client.buffer = s.client.buffer ++ extra := by
+  obtain ⟨seg, _, _, _, h⟩ := phaseUR_seg s t
+  rcases h with ⟨_, h⟩ | ⟨_, _, _, h⟩
+  · exact ⟨[], by rw [h]; simp⟩
+  · exact ⟨[seg], by rw [h]; simp [Conn.queue]⟩
+
+theorem readHalf_client (s : St) (t : Tick) :
+    ∃ extra, (readHalf s t).1.client.buffer = s.client.buffer ++ extra := by
+  unfold readHalf
+  split
+  · exact ⟨[], by simp [finish_fst]⟩
+  · obtain ⟨e1, h1⟩ := phaseCR_client s t
+    rcases hcr : phaseCR s t with ⟨s1, r⟩
+    rw [hcr] at h1
+    cases r with
+    | raised => exact ⟨e1, h1⟩
+    | yes => exact ⟨e1, by simpa [finish_fst] using h1⟩
+    | no =>
+      simp only
+      obtain ⟨e2, h2⟩ := phaseUR_client s1 t
+      rcases hur : phaseUR s1 t with ⟨s2, r2⟩
+      rw [hur] at h2
+      refine ⟨e1 ++ e2, ?_⟩
+      simp only [finish_fst] at h1 h2 ⊢
+      rw [h2, h1]; simp
+
+theorem hasBuffer_append_false (c c' : Conn) (extra : List Bytes)
+    (h : c'.buffer = c.buffer ++ extra) (he : c'.hasBuffer = false) : c.hasBuffer = false := by
+  simp [Conn.hasBuffer, h] at he ⊢; exact he.1
+
+/-- what the client-write phase leaves when it does not return `True` -/
+theorem phaseCW_false (s : St) (t : Tick) (h : (phaseCW s t).2 = false) :
+    (s.mustFlush = true → s.client.hasBuffer = true → (phaseCW s t).1.client.hasBuffer = true) ∧
+    (phaseCW s t).1.mustFlush = s.mustFlush := by
+  unfold phaseCW at h ⊢
+  split
+  · rename_i hc; rw [if_pos hc] at h
+    obtain ⟨_, a2, a3, _, _⟩ := afterCW_false _ _ h
+    exact ⟨fun hm _ => a2 hm, a3⟩
+  · exact ⟨fun _ hb => hb, rfl⟩
+
+/-- **prompt close, one tick**: in a final-flush state the tick after which the
+    client buffer is empty returns `True` -/
+theorem tick_prompt (s : St) (t : Tick) (hf : s.mustFlush = true ∨ s.readsTeared = true)
+    (hi : s.mustFlush = true → s.client.hasBuffer = true)
+    (he : (tick s t).1.client.hasBuffer = false) : (tick s t).2 = .teardown := by
+  unfold tick at he ⊢
+  simp only at he ⊢
+  have fw := phaseCW_frame { s with trC := none, trU := none } t
+  have pf := phaseCW_false { s with trC := none, trU := none } t
+  rcases hcw : phaseCW { s with trC := none, trU := none } t with ⟨s1, w⟩
+  rw [hcw] at he fw pf
+  cases w with
+  | true => rfl
+  | false =>
+    simp only at he fw pf ⊢
+    obtain ⟨p1, p2⟩ := pf trivial
+    have fu := phaseUW_frame { s1 with writesTeared := false } t
+    rcases huw : phaseUW { s1 with writesTeared := false } t with ⟨s2, w2⟩
+    rw [huw] at he fu
+    simp only at he fu ⊢
+    obtain ⟨extra, hx⟩ := readHalf_client { s2 with writesTeared := w2, readsTeared := s2.readsTeared || w2 } t
+    have h3 := hasBuffer_append_false _ _ _ hx he
+    simp only at h3
+    have hc2 : s2.client = s1.client := fu.2.2.1
+    rw [hc2] at h3
+    have hnm : s.mustFlush ≠ true := by
+      intro hm
+      have := p1 hm (hi hm)
+      rw [this] at h3; simp at h3
+    have hrt : s.readsTeared = true := by
+      rcases hf with h | h
+      · exact absurd h hnm
+      · exact h
+    have hrt2 : s2.readsTeared = true := by
+      rw [fu.2.2.2.2.2.2.2.1]; show s1.readsTeared = true; rw [fw.2.2.2.2.2.2.2.1]; exact hrt
+    unfold readHalf at he ⊢
+    simp only [hrt2, Bool.true_or, if_true] at he ⊢
+    unfold finish at he ⊢
+    simp only at he ⊢
+    simp [he]
+
+/-- in a `must_flush_before_shutdown` state the client is not read and the flag
+    stays up until the tick that returns `True` -/
+theorem step_mustFlush (s : St) (t : Tick) (hm : s.mustFlush = true) :
+    (events s).cR = false ∧ (step s t).1.recvC = s.recvC ∧
+    ((step s t).2 = .cont → (step s t).1.mustFlush = true) := by
+  refine ⟨by simp [events, hm], ?_⟩
+  have hcR : (mask (events s) t).cR = false := by simp [mask, events, hm]
+  unfold step tick
+  simp only
+  have fw := phaseCW_frame { s with trC := none, trU := none } (mask (events s) t)
+  have pf := phaseCW_false { s with trC := none, trU := none } (mask (events s) t)
+  rcases hcw : phaseCW { s with trC := none, trU := none } (mask (events s) t) with ⟨s1, w⟩
+  rw [hcw] at fw pf
+  cases w with
+  | true => simp only at fw ⊢; exact ⟨by simp [fw.2.2.2.2.1], by simp⟩
+  | false =>
+    simp only at fw pf ⊢
+    obtain ⟨_, p2⟩ := pf trivial
+    have fu := phaseUW_frame { s1 with writesTeared := false } (mask (events s) t)
+    rcases huw : phaseUW { s1 with writesTeared := false } (mask (events s) t) with ⟨s2, w2⟩
+    rw [huw] at fu
+    simp only at fu ⊢
+    have hm2 : s2.mustFlush = true := by rw [fu.2.2.2.2.2.2.2.2.1]; show s1.mustFlush = true; rw [p2]; exact hm
+    have hr2 : s2.recvC = s.recvC := by rw [fu.2.2.2.2.1]; show s1.recvC = s.recvC; rw [fw.2.2.2.2.1]
+    unfold readHalf
+    split
+    · exact ⟨by simp [finish_fst, hr2], fun _ => by simp [finish_fst, hm2]⟩
+    · have hp : phaseCR { s2 with writesTeared := w2, readsTeared := s2.readsTeared || w2 } (mask (events s) t)
+          = ({ s2 with writesTeared := w2, readsTeared := s2.readsTeared || w2 }, .no) := by
+        unfold phaseCR; rw [hcR]; simp
+      rw [hp]
+      simp only
+      have fr := phaseUR_frame { s2 with writesTeared := w2, readsTeared := s2.readsTeared || w2 } (mask (events s) t)
+      rcases hur : phaseUR { s2 with writesTeared := w2, readsTeared := s2.readsTeared || w2 } (mask (events s) t) with ⟨s3, r3⟩
+      rw [hur] at fr
+      simp only at fr ⊢
+      exact ⟨by simp [finish_fst, fr.2.2.2.1, hr2], fun _ => by simp [finish_fst, fr.2.2.2.2.2.2, hm2]⟩
+
+/-! #### final flush: output only shrinks, and is delivered -/
+
+/-- final-flush states: reads are torn down (upstream closed / failed, client
+    closed its sending side), or a close was requested with output pending on a
+    connection without upstream (error response, web-server reply) -/
+def FinalFlush (s : St) : Prop :=
+  s.readsTeared = true ∨ (s.mustFlush = true ∧ s.kind = .local)
+
+/-- `must_flush_before_shutdown` is only ever up while output is pending -/
+def FlushInv (s : St) : Prop := s.mustFlush = true → s.client.hasBuffer = true
+
+/-- the client can take at least one byte -/
+def GoodTick (t : Tick) : Prop := t.cW = true ∧ ∃ k, t.cSend = .sent (k + 1)
+
+theorem afterCW_client (s : St) (r : FlushRes) :
+    (afterCW s r).1.client = r.conn ∧ (afterCW s r).1.sentC = s.sentC ++ r.wire ∧
+    (afterCW s r).1.kind = s.kind := by
+  obtain ⟨conn, off, acc, exc⟩ := r
+  unfold afterCW
+  cases exc with
+  | some e => simp
+  | none => simp only; split <;> simp
+
+/-- the client-write phase in terms of the flush it performs -/
+theorem phaseCW_client (s : St) (t : Tick) :
+    ((t.cW && s.client.hasBuffer) = true ∧
+      (phaseCW s t).1.client = (s.client.flush s.maxSend t.cSend).conn ∧
+      (phaseCW s t).1.sentC = s.sentC ++ (s.client.flush s.maxSend t.cSend).wire) ∨
+    ((t.cW && s.client.hasBuffer) = false ∧ (phaseCW s t).1.client = s.client ∧
+      (phaseCW s t).1.sentC = s.sentC) := by
+  unfold phaseCW
+  split
+  · rename_i h; left; exact ⟨h, (afterCW_client _ _).1, (afterCW_client _ _).2.1⟩
+  · rename_i h; right; exact ⟨by simpa using h, rfl, rfl⟩
+
+/-- in a final-flush state, after the client-write phase nothing touches the
+    client side of the state, nothing is read, no exception can escape, and the
+    state stays a final-flush state -/
+theorem step_final (s : St) (t : Tick) (hf : FinalFlush s) :
+    (step s t).1.client = (phaseCW { s with trC := none, trU := none } (mask (events s) t)).1.client ∧
+    (step s t).1.sentC = (phaseCW { s with trC := none, trU := none } (mask (events s) t)).1.sentC ∧
+    (step s t).1.recvU = s.recvU ∧ (step s t).1.recvC = s.recvC ∧
+    (step s t).1.kind = s.kind ∧ (step s t).2 ≠ .raised ∧
+    ((step s t).2 = .cont → FinalFlush (step s t).1) := by
+  unfold step tick
+  simp only
+  have fw := phaseCW_frame { s with trC := none, trU := none } (mask (events s) t)
+  have pf := phaseCW_false { s with trC := none, trU := none } (mask (events s) t)
+  rcases hcw : phaseCW { s with trC := none, trU := none } (mask (events s) t) with ⟨s1, w⟩
+  rw [hcw] at fw pf
+  cases w with
+  | true =>
+    simp only at fw ⊢
+    exact ⟨trivial, trivial, by simp [fw.2.2.2.1], by simp [fw.2.2.2.2.1], by simp [fw.1], by simp, by simp⟩
+  | false =>
+    simp only at fw pf ⊢
+    obtain ⟨_, p2⟩ := pf trivial
+    have fu := phaseUW_frame { s1 with writesTeared := false } (mask (events s) t)
+    have hupw : s.kind = .local → phaseUW { s1 with writesTeared := false } (mask (events s) t)
+        = ({ s1 with writesTeared := false }, false) := by
+      intro hk; unfold phaseUW upLive; simp [fw.1, hk]
+    rcases huw : phaseUW { s1 with writesTeared := false } (mask (events s) t) with ⟨s2, w2⟩
+    rw [huw] at fu hupw
+    simp only at fu ⊢
+    obtain ⟨b1, b2, b3, b4, b5, b6, b7, b8, b9, b10, b11⟩ := fu
+    have k2 : s2.kind = s.kind := by rw [b1]; exact fw.1
+    have ru : s2.recvU = s.recvU := by rw [b4]; exact fw.2.2.2.1
+    have rc : s2.recvC = s.recvC := by rw [b5]; exact fw.2.2.2.2.1
+    rcases hf with hrt | ⟨hm, hk⟩
+    · have hrt2 : s2.readsTeared = true := by
+        rw [b8]; show s1.readsTeared = true; rw [fw.2.2.2.2.2.2.2.1]; exact hrt
+      unfold readHalf
+      simp only [hrt2, Bool.true_or, if_true, finish_fst]
+      refine ⟨by rw [b3], by rw [b6], ru, rc, k2, finish_snd_ne_raised _, fun _ => Or.inl ?_⟩
+      simp [hrt2]
+    · have e2 := hupw hk
+      injection e2 with e2a e2b
+      subst e2b
+      have hcR : (mask (events s) t).cR = false := by simp [mask, events, hm]
+      have hm2 : s2.mustFlush = true := by rw [b9]; show s1.mustFlush = true; rw [p2]; exact hm
+      unfold readHalf
+      split
+      · rename_i hr
+        simp only [finish_fst]
+        exact ⟨by rw [b3], by rw [b6], ru, rc, k2, finish_snd_ne_raised _,
+          fun _ => Or.inl (by simpa using hr)⟩
+      · have hp : phaseCR { s2 with writesTeared := false, readsTeared := s2.readsTeared || false } (mask (events s) t)
+            = ({ s2 with writesTeared := false, readsTeared := s2.readsTeared || false }, .no) := by
+          unfold phaseCR; rw [hcR]; simp
+        rw [hp]
+        simp only
+        have hq : phaseUR { s2 with writesTeared := false, readsTeared := s2.readsTeared || false } (mask (events s) t)
+            = ({ s2 with writesTeared := false, readsTeared := s2.readsTeared || false }, false) := by
+          unfold phaseUR upLive; simp [k2, hk]
+        rw [hq]
+        simp only [finish_fst]
+        exact ⟨by rw [b3], by rw [b6], ru, rc, k2, finish_snd_ne_raised _,
+          fun _ => Or.inr ⟨hm2, by rw [k2]; exact hk⟩⟩
+
+/-- **pending output only shrinks** in a final-flush state: one step removes a
+    prefix `w` of the pending bytes and appends exactly it to what was delivered -/
+theorem step_only_shrinks (s : St) (t : Tick) (hf : FinalFlush s) :
+    ∃ w, s.client.buffer.flatten = w ++ (step s t).1.client.buffer.flatten ∧
+      (step s t).1.sentC = s.sentC ++ w ∧
+      pending (step s t).1.client ≤ pending s.client := by
+  obtain ⟨h1, h2, _⟩ := step_final s t hf
+  rw [h1, h2]
+  rcases phaseCW_client { s with trC := none, trU := none } (mask (events s) t) with ⟨_, c1, c2⟩ | ⟨_, c1, c2⟩
+  · rw [c1, c2]
+    exact ⟨_, (flush_wire_append s.maxSend s.client _).symm, rfl, flush_pending_le _ _ _⟩
+  · rw [c1, c2]
+    exact ⟨[], by simp, by simp, Nat.le_refl _⟩
+
+/-- one good tick of a final flush: strictly less pending, nothing lost, and
+    either the close (buffer empty) or still a final-flush state -/
+theorem step_final_good (s : St) (t : Tick) (hf : FinalFlush s) (hi : FlushInv s)
+    (hb : s.client.hasBuffer = true) (hg : GoodTick t) :
+    D (step s t).1 = D s ∧ pending (step s t).1.client < pending s.client ∧
+    (((step s t).2 = .teardown ∧ (step s t).1.client.hasBuffer = false) ∨
+     ((step s t).2 = .cont ∧ FinalFlush (step s t).1 ∧ FlushInv (step s t).1 ∧
+        (step s t).1.client.hasBuffer = true)) := by
+  obtain ⟨h1, h2, _, _, _, h6, h7⟩ := step_final s t hf
+  obtain ⟨gw, k, gk⟩ := hg
+  have hmw : ((mask (events s) t).cW && s.client.hasBuffer) = true := by
+    simp [mask, events, gw, hb]
+  have hbne : s.client.buffer ≠ [] := (hasBuffer_true_iff _).mp hb
+  rcases phaseCW_client { s with trC := none, trU := none } (mask (events s) t) with ⟨_, c1, c2⟩ | ⟨hc, _, _⟩
+  · have hcs : (mask (events s) t).cSend = .sent (k + 1) := gk
+    simp only at c1 c2
+    rw [hcs] at c1 c2
+    refine ⟨?_, ?_, ?_⟩
+    · unfold D; rw [h1, h2, c1, c2, List.append_assoc, flush_wire_append]
+    · rw [h1, c1]; exact flush_pending_lt _ _ _ hbne
+    · cases hr : (step s t).2 with
+      | raised => exact absurd hr h6
+      | teardown =>
+        left; refine ⟨rfl, ?_⟩
+        cases hx : (step s t).1.client.hasBuffer with
+        | false => rfl
+        | true =>
+          obtain ⟨_, _, f⟩ := step_no_early_close s t hr hx
+          rw [gk] at f; simp at f
+      | cont =>
+        right
+        have hx : (step s t).1.client.hasBuffer = true := by
+          cases hx : (step s t).1.client.hasBuffer with
+          | true => rfl
+          | false =>
+            have hff : s.mustFlush = true ∨ s.readsTeared = true := by
+              rcases hf with h | ⟨h, _⟩
+              · exact Or.inr h
+              · exact Or.inl h
+            have := tick_prompt s (mask (events s) t) hff hi hx
+            rw [show (tick s (mask (events s) t)).2 = (step s t).2 from rfl, hr] at this
+            simp at this
+        exact ⟨rfl, h7 hr, fun _ => hx, hx⟩
+  · simp only at hc; rw [hmw] at hc; simp at hc
+
+/-- **delivery**: from a final-flush state with output pending, any run of
+    ticks in each of which the client takes at least one byte, at least as long
+    as the pending measure, ends in teardown with every pending byte accepted by
+    the client's `send`, in order -/
+theorem run_delivered (ticks : List Tick) (s : St) (hf : FinalFlush s) (hi : FlushInv s)
+    (hb : s.client.hasBuffer = true) (hg : ∀ t ∈ ticks, GoodTick t)
+    (hn : pending s.client ≤ ticks.length) :
+    (run s ticks).2 = .teardown ∧ (run s ticks).1.client.buffer = [] ∧
+    (run s ticks).1.sentC = s.sentC ++ s.client.buffer.flatten := by
+  induction ticks generalizing s with
+  | nil =>
+    have : 0 < pending s.client := by
+      have := (hasBuffer_true_iff _).mp hb
+      unfold pending
+      cases hbuf : s.client.buffer with
+      | nil => exact absurd hbuf this
+      | cons a b => simp; omega
+    simp at hn; omega
+  | cons t ts ih =>
+    obtain ⟨d, p, c⟩ := step_final_good s t hf hi hb (hg t (by simp))
+    rw [run_cons]
+    rcases c with ⟨r, e⟩ | ⟨r, f', i', b'⟩
+    · rw [if_neg (by rw [r]; simp)]
+      have he := (hasBuffer_false_iff _).mp e
+      refine ⟨r, he, ?_⟩
+      have := d; unfold D at this; rw [he] at this; simpa using this
+    · rw [if_pos r]
+      have hn' : pending (step s t).1.client ≤ ts.length := by simp at hn; omega
+      obtain ⟨a1, a2, a3⟩ := ih (step s t).1 f' i' b' (fun x hx => hg x (by simp [hx])) hn'
+      refine ⟨a1, a2, ?_⟩
+      rw [a3]; exact d
+
+/-! #### shape of the client side after one tick; threaded shutdown -/
+
+/-- on a tunnel / plain-HTTP exchange the client connection after a tick is what
+    the client-write phase left, possibly with one non-empty upstream segment
+    queued behind it; `sentC` is what the client-write phase left -/
+theorem tick_shape (s : St) (t : Tick) (hk : s.kind ≠ .local) :
+    (tick s t).1.sentC = (phaseCW { s with trC := none, trU := none } t).1.sentC ∧
+    ((tick s t).1.client = (phaseCW { s with trC := none, trU := none } t).1.client ∨
+      ∃ seg, seg ≠ [] ∧
+        (tick s t).1.client = ((phaseCW { s with trC := none, trU := none } t).1.client).queue seg) := by
+  unfold tick
+  simp only
+  have fw := phaseCW_frame { s with trC := none, trU := none } t
+  rcases hcw : phaseCW { s with trC := none, trU := none } t with ⟨s1, w⟩
+  rw [hcw] at fw
+  cases w with
+  | true => exact ⟨rfl, Or.inl rfl⟩
+  | false =>
+    simp only at fw ⊢
+    have fu := phaseUW_frame { s1 with writesTeared := false } t
+    rcases huw : phaseUW { s1 with writesTeared := false } t with ⟨s2, w2⟩
+    rw [huw] at fu
+    simp only at fu ⊢
+    obtain ⟨b1, b2, b3, b4, b5, b6, b7, b8, b9, b10, b11⟩ := fu
+    have k2 : s2.kind ≠ .local := by rw [b1]; show s1.kind ≠ .local; rw [fw.1]; exact hk
+    unfold readHalf
+    split
+    · simp only [finish_fst]; exact ⟨b6, Or.inl b3⟩
+    · have fc := phaseCR_frame { s2 with writesTeared := w2, readsTeared := s2.readsTeared || w2 } t k2
+      rcases hcr : phaseCR { s2 with writesTeared := w2, readsTeared := s2.readsTeared || w2 } t with ⟨s3, r⟩
+      rw [hcr] at fc
+      simp only at fc
+      obtain ⟨c1, c2, c3, c4, c5, c6, c7, c8⟩ := fc
+      cases r with
+      | raised => exact ⟨by rw [c5]; exact b6, Or.inl (by rw [c3]; exact b3)⟩
+      | yes => simp only [finish_fst]; exact ⟨by rw [c5]; exact b6, Or.inl (by rw [c3]; exact b3)⟩
+      | no =>
+        simp only
+        have fr := phaseUR_frame s3 t
+        obtain ⟨seg, _, _, _, u4⟩ := phaseUR_seg s3 t
+        rcases hur : phaseUR s3 t with ⟨s4, r4⟩
+        rw [hur] at fr u4
+        simp only [finish_fst] at fr u4 ⊢
+        refine ⟨by rw [fr.2.2.2.2.1, c5]; exact b6, ?_⟩
+        rcases u4 with ⟨_, h⟩ | ⟨_, hne, _, h⟩
+        · left; rw [h, c3]; exact b3
+        · right; exact ⟨seg, hne, by rw [h, c3]; exact congrArg (·.queue seg) b3⟩
+
+theorem tick_noEmpty (s : St) (t : Tick) (hk : s.kind ≠ .local) (h : NoEmpty s.client) :
+    NoEmpty (tick s t).1.client := by
+  have hcw : NoEmpty (phaseCW { s with trC := none, trU := none } t).1.client := by
+    rcases phaseCW_client { s with trC := none, trU := none } t with ⟨_, c, _⟩ | ⟨_, c, _⟩
+    · rw [c]; exact flush_noEmpty _ _ _ h
+    · rw [c]; exact h
+  rcases (tick_shape s t hk).2 with e | ⟨seg, hne, e⟩
+  · rw [e]; exact hcw
+  · rw [e]; exact queue_noEmpty _ _ hcw hne
+
+theorem run_noEmpty (ticks : List Tick) (s : St) (hk : s.kind ≠ .local) (h : NoEmpty s.client) :
+    NoEmpty (run s ticks).1.client := by
+  induction ticks generalizing s with
+  | nil => exact h
+  | cons t ts ih =>
+    obtain ⟨seg, d⟩ := step_down s t hk
+    have h1 : NoEmpty (step s t).1.client := tick_noEmpty s _ hk h
+    rw [run_cons]
+    split
+    · exact ih _ (by rw [d.kind]; exact hk) h1
+    · exact h1
+
+/-- progress of one tick: client writable, a non-empty head element pending and
+    the kernel takes at least one byte ⇒ a non-empty prefix of the pending bytes
+    is appended to what was delivered -/
+theorem step_progress (s : St) (t : Tick) (hk : s.kind ≠ .local) (mv : Bytes) (rest : List Bytes)
+    (hb : s.client.buffer = mv :: rest) (hne : mv ≠ []) (hw : t.cW = true) (k : Nat)
+    (hs : t.cSend = .sent (k + 1)) :
+    ∃ w, w ≠ [] ∧ (step s t).1.sentC = s.sentC ++ w ∧ w <+: s.client.buffer.flatten ∧
+      w.length = min (k + 1) (min (effMax s.maxSend) mv.length) := by
+  have hhb : s.client.hasBuffer = true := by simp [Conn.hasBuffer, hb]
+  have hmw : ((mask (events s) t).cW && s.client.hasBuffer) = true := by simp [mask, events, hw, hhb]
+  have h1 := (tick_shape s (mask (events s) t) hk).1
+  rcases phaseCW_client { s with trC := none, trU := none } (mask (events s) t) with ⟨_, _, c2⟩ | ⟨hc, _, _⟩
+  · simp only at c2
+    have hcs : (mask (events s) t).cSend = .sent (k + 1) := hs
+    rw [hcs] at c2
+    refine ⟨(flush s.maxSend s.client (.sent (k + 1))).wire, ?_, ?_, ?_, ?_⟩
+    · intro h0
+      have := wire_length s.maxSend s.client (.sent (k + 1))
+      rw [h0, flush_accepted _ _ _ mv rest hb] at this
+      have hm := effMax_pos s.maxSend
+      have : 0 < mv.length := List.length_pos_iff.mpr hne
+      simp at *; omega
+    · show (tick s (mask (events s) t)).1.sentC = _; rw [h1, c2]
+    · have := flush_wire_append s.maxSend s.client (.sent (k + 1))
+      exact ⟨_, this⟩
+    · rw [wire_length, flush_accepted _ _ _ mv rest hb]
+  · simp only at hc; rw [hmw] at hc; simp at hc
+
+/-! threaded `_flush` -/
+
+theorem flushLoop_account (m : Nat) (script : List SelEv) (c : Conn) (sent : Bytes) :
+    (flushLoop m c sent script).2.1 ++ (flushLoop m c sent script).1.buffer.flatten
+      = sent ++ c.buffer.flatten := by
+  induction script generalizing c sent with
+  | nil => simp [flushLoop]
+  | cons e es ih =>
+    unfold flushLoop
+    split
+    · rfl
+    · cases e with
+      | timeout => exact ih c sent
+      | ready o =>
+        simp only
+        have hw := flush_wire_append m c o
+        cases he : (flush m c o).exc with
+        | some x => cases x <;> simp [List.append_assoc, hw]
+        | none => simp only; rw [ih, List.append_assoc, hw]
+
+theorem flushLoop_closed (m : Nat) (script : List SelEv) (c : Conn) (sent : Bytes) :
+    (flushLoop m c sent script).1.closed = c.closed := by
+  induction script generalizing c sent with
+  | nil => simp [flushLoop]
+  | cons e es ih =>
+    unfold flushLoop
+    split
+    · rfl
+    · cases e with
+      | timeout => exact ih c sent
+      | ready o =>
+        simp only
+        have hc := flush_closed m c o
+        cases he : (flush m c o).exc with
+        | some x => cases x <;> simp [hc]
+        | none => simp only; rw [ih, hc]
+
+/-- `_flush` ends `drained` exactly with an empty buffer; it ends otherwise only
+    with output still pending and after a failing `send` (or with the script used up) -/
+theorem flushLoop_end (m : Nat) (script : List SelEv) (c : Conn) (sent : Bytes) :
+    ((flushLoop m c sent script).2.2 = .drained → (flushLoop m c sent script).1.buffer = []) ∧
+    ((flushLoop m c sent script).2.2 ≠ .drained → (flushLoop m c sent script).1.buffer ≠ []) ∧
+    ((flushLoop m c sent script).2.2 = .brokenPipe → .ready .brokenPipe ∈ script) ∧
+    ((flushLoop m c sent script).2.2 = .osError →
+        .ready .osError ∈ script ∨ .ready .sslWantWrite ∈ script) := by
+  induction script generalizing c sent with
+  | nil =>
+    unfold flushLoop
+    cases h : c.hasBuffer <;> simp [h] <;> simpa [Conn.hasBuffer] using h
+  | cons e es ih =>
+    unfold flushLoop
+    split
+    · rename_i h
+      have : c.buffer = [] := by simpa [Conn.hasBuffer] using h
+      simp [this]
+    · rename_i h
+      have hne : c.buffer ≠ [] := by simpa [Conn.hasBuffer] using h
+      cases e with
+      | timeout =>
+        obtain ⟨i1, i2, i3, i4⟩ := ih c sent
+        exact ⟨i1, i2, fun x => by simp [i3 x], fun x => by rcases i4 x with y | y <;> simp [y]⟩
+      | ready o =>
+        simp only
+        cases he : (flush m c o).exc with
+        | some x =>
+          have hc := (flush_exc_conn m c o x he).1
+          rcases flush_exc_eq m c o x he with ⟨hx, ho⟩ | ⟨hx, ho⟩ | ⟨hx, ho⟩ <;> subst hx <;> subst ho <;>
+            simp [hc, hne]
+        | none =>
+          simp only
+          obtain ⟨i1, i2, i3, i4⟩ := ih (flush m c o).conn (sent ++ (flush m c o).wire)
+          exact ⟨i1, i2, fun x => by simp [i3 x], fun x => by rcases i4 x with y | y <;> simp [y]⟩
+
+/-- number of `select()` rounds of a script that report the client writable -/
+def readyCount : List SelEv → Nat
+  | [] => 0
+  | .timeout :: es => readyCount es
+  | .ready _ :: es => readyCount es + 1
+
+/-- termination of `_flush` with everything sent: enough ready events in each of
+    which the kernel takes at least one byte -/
+theorem flushLoop_drains (m : Nat) (script : List SelEv) (c : Conn) (sent : Bytes)
+    (hg : ∀ e ∈ script, e = .timeout ∨ ∃ k, e = .ready (.sent (k + 1)))
+    (hn : pending c ≤ readyCount script) :
+    (flushLoop m c sent script).2.2 = .drained ∧
+    (flushLoop m c sent script).2.1 = sent ++ c.buffer.flatten := by
+  induction script generalizing c sent with
+  | nil =>
+    have : c.buffer = [] := by
+      unfold pending at hn
+      cases hb : c.buffer with
+      | nil => rfl
+      | cons a b => rw [hb] at hn; simp [readyCount] at hn
+    simp [flushLoop, Conn.hasBuffer, this]
+  | cons e es ih =>
+    unfold flushLoop
+    split
+    · rename_i h
+      have : c.buffer = [] := by simpa [Conn.hasBuffer] using h
+      simp [this]
+    · rename_i h
+      have hne : c.buffer ≠ [] := by simpa [Conn.hasBuffer] using h
+      rcases hg e (by simp) with he | ⟨k, he⟩
+      · subst he
+        exact ih c sent (fun x hx => hg x (by simp [hx])) (by simpa [readyCount] using hn)
+      · subst he
+        simp only
+        have hex : (flush m c (.sent (k + 1))).exc = none := by
+          cases hx : (flush m c (.sent (k + 1))).exc with
+          | none => rfl
+          | some x =>
+            have := ((flush_exc_iff m c (.sent (k + 1))).mp (by rw [hx]; simp)).2
+            simp at this
+        rw [hex]
+        simp only
+        have hlt := flush_pending_lt m c k hne
+        obtain ⟨a1, a2⟩ := ih (flush m c (.sent (k + 1))).conn (sent ++ (flush m c (.sent (k + 1))).wire)
+          (fun x hx => hg x (by simp [hx])) (by simp [readyCount] at hn; omega)
+        refine ⟨a1, ?_⟩
+        rw [a2, List.append_assoc, flush_wire_append]
+
+/-! #### `FlushInv` is an invariant -/
+
+theorem hasBuffer_append_true (c c' : Conn) (extra : List Bytes)
+    (h : c'.buffer = c.buffer ++ extra) (he : c.hasBuffer = true) : c'.hasBuffer = true := by
+  simp [Conn.hasBuffer, h] at he ⊢; intro h0; exact absurd h0 he
+
+theorem afterCW_flushInv (s : St) (r : FlushRes) (hi : FlushInv s)
+    (hx : r.exc ≠ none → r.conn = s.client) : FlushInv (afterCW s r).1 := by
+  obtain ⟨conn, off, acc, exc⟩ := r
+  unfold afterCW FlushInv
+  cases exc with
+  | some e =>
+    have : conn = s.client := hx (by simp)
+    subst this
+    exact hi
+  | none =>
+    simp only
+    split
+    · simp
+    · rename_i hc
+      simp at hc ⊢
+      intro hm
+      cases hb : conn.hasBuffer with
+      | true => rfl
+      | false => exact absurd (hc hm) (by simp [hb])
+
+theorem phaseCW_flushInv (s : St) (t : Tick) (hi : FlushInv s) : FlushInv (phaseCW s t).1 := by
+  unfold phaseCW
+  split
+  · apply afterCW_flushInv _ _ hi
+    intro hx
+    cases he : (flush s.maxSend s.client t.cSend).exc with
+    | none => exact absurd he hx
+    | some e => exact (flush_exc_conn _ _ _ e he).1
+  · exact hi
+
+theorem onClientData_mustFlush (s : St) (b : Bytes) (a : AppOut) :
+    (onClientData s b a).1.mustFlush = s.mustFlush := by
+  unfold onClientData
+  cases s.kind with
+  | tunnel => simp only; split <;> rfl
+  | http =>
+    simp only
+    split
+    · rfl
+    · cases a with
+      | raised => rfl
+      | ok u c cl => cases u <;> rfl
+  | «local» =>
+    cases a with
+    | raised => rfl
+    | ok u c cl => cases c <;> rfl
+
+theorem afterHD_flushInv (s : St) (hd : HD) (hi : FlushInv s) : FlushInv (afterHD s hd).1 := by
+  unfold afterHD
+  cases hd with
+  | raised => exact hi
+  | ret c =>
+    cases c with
+    | false => exact hi
+    | true =>
+      simp only
+      split
+      · rename_i h; intro _; exact h
+      · exact hi
+
+theorem phaseCR_flushInv (s : St) (t : Tick) (hi : FlushInv s) : FlushInv (phaseCR s t).1 := by
+  unfold phaseCR
+  split
+  · cases hr : Conn.recv t.cRecv with
+    | none_ => exact hi
+    | exc o => cases o <;> exact hi
+    | seg b =>
+      simp only
+      apply afterHD_flushInv
+      obtain ⟨e, he⟩ := onClientData_client { s with recvC := s.recvC ++ b } b t.app
+      intro hm
+      rw [onClientData_mustFlush] at hm
+      exact hasBuffer_append_true _ _ _ he (hi hm)
+  · exact hi
+
+theorem phaseUR_flushInv (s : St) (t : Tick) (hi : FlushInv s) : FlushInv (phaseUR s t).1 := by
+  obtain ⟨e, he⟩ := phaseUR_client s t
+  intro hm
+  rw [(phaseUR_frame s t).2.2.2.2.2.2] at hm
+  exact hasBuffer_append_true _ _ _ he (hi hm)
+
+theorem readHalf_flushInv (s : St) (t : Tick) (hi : FlushInv s) : FlushInv (readHalf s t).1 := by
+  unfold readHalf
+  split
+  · exact hi
+  · have h1 := phaseCR_flushInv s t hi
+    rcases hcr : phaseCR s t with ⟨s1, r⟩
+    rw [hcr] at h1
+    cases r with
+    | raised => exact h1
+    | yes => exact h1
+    | no =>
+      simp only
+      have h2 := phaseUR_flushInv s1 t h1
+      rcases hur : phaseUR s1 t with ⟨s2, r2⟩
+      rw [hur] at h2
+      exact h2
+
+/-- `must_flush_before_shutdown` ⇒ output pending, in every state a tick produces -/
+theorem tick_flushInv (s : St) (t : Tick) (hi : FlushInv s) : FlushInv (tick s t).1 := by
+  unfold tick
+  simp only
+  have h1 := phaseCW_flushInv { s with trC := none, trU := none } t hi
+  rcases hcw : phaseCW { s with trC := none, trU := none } t with ⟨s1, w⟩
+  rw [hcw] at h1
+  cases w with
+  | true => exact h1
+  | false =>
+    simp only
+    have fu := phaseUW_frame { s1 with writesTeared := false } t
+    rcases huw : phaseUW { s1 with writesTeared := false } t with ⟨s2, w2⟩
+    rw [huw] at fu
+    simp only at fu ⊢
+    apply readHalf_flushInv
+    intro hm
+    show s2.client.hasBuffer = true
+    rw [fu.2.2.1]
+    apply h1
+    have : s2.mustFlush = s1.mustFlush := fu.2.2.2.2.2.2.2.2.1
+    rw [← this]; exact hm
+
+theorem run_flushInv (ticks : List Tick) (s : St) (hi : FlushInv s) : FlushInv (run s ticks).1 := by
+  induction ticks generalizing s with
+  | nil => exact hi
+  | cons t ts ih =>
+    have h1 : FlushInv (step s t).1 := tick_flushInv s _ hi
+    rw [run_cons]
+    split
+    · exact ih _ h1
+    · exact h1
+
 end Px.Relay
